@@ -276,7 +276,15 @@ def drive_rounding(rec, count):
         a = np.array([[val(), val()] for _ in range(m)])
         b = np.array([[val(), val()] for _ in range(m)])
         r0 = np.array([[val(), val()] for _ in range(m)])
-        label = "%s m=%d general data" % (kern[0], m)
+        fam = "general"
+        if it % 7 == 3:
+            # subnormal operands against large ones: every product is an ordinary number (2^-75 .. 2^-3), but only if subnormal operands are
+            # read as what they are (no flush to zero, whatever was called before in this process)
+            fam = "subnormal x large"
+            a = np.array([[float(np.ldexp(1.0 + rng.random(), rng.randrange(-1074, -1023))) * rng.choice([1, -1]) for _ in range(2)] for _ in range(m)])
+            b = np.array([[float(np.ldexp(1.0 + rng.random(), rng.randrange(1000, 1020))) * rng.choice([1, -1]) for _ in range(2)] for _ in range(m)])
+            r0 = np.array([[float(np.ldexp(rng.random() - 0.5, rng.randrange(-60, -20))) for _ in range(2)] for _ in range(m)])
+        label = "%s m=%d %s data" % (kern[0], m, fam)
         if not rec.progress(label):
             continue
         got, why = kernels.run_pointwise(L, tables, kern, m, rng.choice([MASK_NONE, MASK_GENERIC]), a, b, r0, "none")
